@@ -10,9 +10,10 @@ func VerifUnescape(s string) string {
 }
 
 type VerifDevice struct {
-	StDev string
-	Name  string
-	Roots []string
+	StDev    string
+	Name     string
+	Roots    []string
+	Subroots [][2]string
 }
 
 type VerifMountEntry struct {
@@ -43,8 +44,11 @@ func (m Mounts) VerifDeviceList() []VerifDevice {
 		if d == nil {
 			continue
 		}
-		out = append(out, VerifDevice{StDev: mnt.st_dev, Name: d.name,
-			Roots: append([]string{}, d.roots...)})
+		vd := VerifDevice{StDev: mnt.st_dev, Name: d.name, Roots: append([]string{}, d.roots...)}
+		for _, sr := range d.subroots {
+			vd.Subroots = append(vd.Subroots, [2]string{sr.root, sr.mountpoint})
+		}
+		out = append(out, vd)
 	}
 	return out
 }
